@@ -168,6 +168,17 @@ def signatures(quick):
             sigs.append(Sig(f"pressure-float/{S.name}/{k}", [F64] * k + [S], None))
         for k in (3, 5, 6, 7):
             sigs.append(Sig(f"pressure-mixed/{S.name}/{k}", [I64, F64] * (k // 2) + [I64] * (k % 2) + [S, I32, S], S))
+    # a result returned in memory (hidden pointer in rdi) takes one integer register away from the arguments
+    by_name = {st.name: st for st in structs}
+    two_eightbytes = [st for st in structs if st.name in ("Z16", "Z9", "Z12") or
+                      (st.name.startswith("Q") and [t.spell() for _, t in st.fields] in (["i64", "i64"], ["i64", "f64"], ["f64", "i64"], ["i32", "i64"],
+                                                                                     ["i64", "i32"], ["f64", "f64"], ["i64", "[2]f32"]))]
+    for BIG in (by_name["Z24"], by_name["R1"], by_name["Z17"], by_name["R3"]):
+        for S2 in two_eightbytes:
+            for k in range(0, 8):
+                sigs.append(Sig(f"pressure-sret-int/{BIG.name}/{S2.name}/{k}", [I64] * k + [S2], BIG))
+            for k in (0, 3, 7, 8):
+                sigs.append(Sig(f"pressure-sret-float/{BIG.name}/{S2.name}/{k}", [F64] * k + [S2], BIG))
     return sigs, structs
 
 
